@@ -11,6 +11,8 @@ import (
 	"time"
 
 	clusterv3 "github.com/envoyproxy/go-control-plane/envoy/config/cluster/v3"
+	endpointv3 "github.com/envoyproxy/go-control-plane/envoy/config/endpoint/v3"
+	routev3 "github.com/envoyproxy/go-control-plane/envoy/config/route/v3"
 	v3core "github.com/envoyproxy/go-control-plane/envoy/config/core/v3"
 	discoveryv3 "github.com/envoyproxy/go-control-plane/envoy/service/discovery/v3"
 	"google.golang.org/protobuf/types/known/anypb"
@@ -58,6 +60,39 @@ func cdsResponse(ver int, names []string) *discoveryv3.DiscoveryResponse {
 		anys = append(anys, a)
 	}
 	return &discoveryv3.DiscoveryResponse{VersionInfo: fmt.Sprint(ver), Nonce: fmt.Sprint("n", ver), TypeUrl: xdsresource.ClusterTypeURL, Resources: anys}
+}
+
+func edsResponse(ver int, names []string) *discoveryv3.DiscoveryResponse {
+	var anys []*anypb.Any
+	for i, n := range names {
+		cla := &endpointv3.ClusterLoadAssignment{ClusterName: n, Endpoints: []*endpointv3.LocalityLbEndpoints{{LbEndpoints: []*endpointv3.LbEndpoint{{
+			HostIdentifier: &endpointv3.LbEndpoint_Endpoint{Endpoint: &endpointv3.Endpoint{Address: &v3core.Address{Address: &v3core.Address_SocketAddress{
+				SocketAddress: &v3core.SocketAddress{Address: fmt.Sprintf("10.0.%d.%d", i, ver%250), PortSpecifier: &v3core.SocketAddress_PortValue{PortValue: 80}}}}}},
+			LoadBalancingWeight: wrapperspb.UInt32(uint32(ver%5 + 1))}}}}}
+		a, err := anypb.New(cla)
+		if err != nil {
+			continue
+		}
+		a.TypeUrl = xdsresource.EndpointTypeURL
+		anys = append(anys, a)
+	}
+	return &discoveryv3.DiscoveryResponse{VersionInfo: fmt.Sprint(ver), Nonce: fmt.Sprint("e", ver), TypeUrl: xdsresource.EndpointTypeURL, Resources: anys}
+}
+
+func rdsResponse(ver int, names []string) *discoveryv3.DiscoveryResponse {
+	var anys []*anypb.Any
+	for _, n := range names {
+		rc := &routev3.RouteConfiguration{Name: n, VirtualHosts: []*routev3.VirtualHost{{Name: "vh", Routes: []*routev3.Route{{
+			Match:  &routev3.RouteMatch{PathSpecifier: &routev3.RouteMatch_Prefix{Prefix: "/"}},
+			Action: &routev3.Route_Route{Route: &routev3.RouteAction{ClusterSpecifier: &routev3.RouteAction_Cluster{Cluster: fmt.Sprint("c", ver%6)}}}}}}}}
+		a, err := anypb.New(rc)
+		if err != nil {
+			continue
+		}
+		a.TypeUrl = xdsresource.RouteTypeURL
+		anys = append(anys, a)
+	}
+	return &discoveryv3.DiscoveryResponse{VersionInfo: fmt.Sprint(ver), Nonce: fmt.Sprint("r", ver), TypeUrl: xdsresource.RouteTypeURL, Resources: anys}
 }
 
 func init() {
@@ -132,7 +167,7 @@ func init() {
 				}
 			})
 		}
-		// control plane: CDS responses with varying subsets on the live stream
+		// control plane: CDS / EDS / RDS responses with varying subsets on the live stream
 		var ver int64
 		worker(func(r *rand.Rand) {
 			v := int(atomic.AddInt64(&ver, 1))
@@ -144,7 +179,7 @@ func init() {
 			}
 			if s := ads.stream(-1); s != nil {
 				select {
-				case s.recvCh <- recvItem{resp: cdsResponse(v, sub)}:
+				case s.recvCh <- recvItem{resp: [](func(int, []string) *discoveryv3.DiscoveryResponse){cdsResponse, edsResponse, rdsResponse}[r.Intn(3)](v, sub)}:
 					atomic.AddInt64(&res.Responses, 1)
 				default:
 				}
